@@ -130,44 +130,8 @@ def check(ctx, report):
         problem = epoch_conversion(ct)
         if problem:
             report.add('C11.R3', ct.construct + '@epoch', problem)
-    # ---- R4
-    pfl = method(model, 'ParserBinary', 'parse_numeric_flags', report)
-    cfl = method(model, 'ComposerBinary', 'compose_numeric_flags', report)
-    if pfl is not None and cfl is not None:
-        report.count('C11.R4', 2)
-        p_ops = [type(n.op).__name__ for n in ast.walk(pfl.node) if isinstance(n, ast.BinOp)]
-        c_ops = [type(n.op).__name__ for n in ast.walk(cfl.node) if isinstance(n, (ast.BinOp, ast.AugAssign))]
-        p_shift = [ast.unparse(n.right) for n in ast.walk(pfl.node) if isinstance(n, ast.BinOp) and isinstance(n.op, ast.LShift)]
-        c_shift = [ast.unparse(n.right) for n in ast.walk(cfl.node) if isinstance(n, ast.BinOp) and isinstance(n.op, ast.RShift)]
-        if 'BitAnd' not in p_ops or 'LShift' not in p_ops or 'RShift' in p_ops or set(p_shift) != {'shift_left'}:
-            report.add('C11.R4', pfl.construct + '@decode', 'flags must be decoded as member & (value << shift_left)')
-        if 'BitOr' not in c_ops or 'RShift' not in c_ops or 'LShift' in c_ops or set(c_shift) != {'shift_right'}:
-            report.add('C11.R4', cfl.construct + '@encode', 'flags must be encoded as OR of (member >> shift_right)')
-        # the member (not the raw intersection) must be what is kept, and only when the intersection is non-zero
-        comps = [n for n in ast.walk(pfl.node) if isinstance(n, (ast.SetComp, ast.ListComp))]
-        if not comps or not comps[0].generators[0].ifs:
-            report.add('C11.R4', pfl.construct + '@filter', 'members must be kept only when they intersect the value')
-    # ---- R5
-    if ct is not None and pt is not None:
-        report.count('C11.R5', 2)
-        p_sent = [n for n in ast.walk(pt.node) if isinstance(n, ast.Compare) and 'item_size' in ast.unparse(n)]
-        c_sent = None
-        for n in ast.walk(ct.node):
-            if isinstance(n, ast.If) and 'is None' in ast.unparse(n.test):
-                for st in n.body:
-                    if isinstance(st, ast.Assign):
-                        c_sent = st.value
-        if not p_sent:
-            report.add('C11.R5', pt.construct + '@sentinel', 'parser sentinel does not depend on item_size')
-        if c_sent is None or 'item_size' not in ast.unparse(c_sent):
-            report.add('C11.R5', ct.construct + '@sentinel',
-                       'the value emitted for None is %s whatever item_size is: a %s-byte field cannot compose the None its own parser produces' % (
-                           ast.unparse(c_sent) if c_sent is not None else '?', 'narrower'))
-        elif p_sent:
-            ps = ast.unparse(p_sent[0].comparators[0]).replace(' ', '').strip('()')
-            cs = ast.unparse(c_sent).replace(' ', '').strip('()')
-            if ps != cs:
-                report.add('C11.R5', ct.construct + '@sentinel', 'parser tests %s, composer emits %s' % (ps, cs))
+    # ---- R4 / R5: flags and timestamps, tabulated (statements of the four primitives evaluated by sa.miniexec)
+    flags_and_timestamps(ctx, report)
     report.rule('C11.R6', 'SSH mpint composer and parser tabulated against RFC 4251 over boundary bit lengths, both signs')
     mpint_pipeline(ctx, report)
     report.floor('C11.R1', 8, 'table/padding obligations')
@@ -555,3 +519,139 @@ def fixed_mpint(ctx, report, cb, pb, rule):
                             return
     except Unsupported as e:
         report.add(rule, cf.construct + '@tabulation', 'the fixed length mpint code left the subset the tabulation understands: %s' % e)
+
+
+# ---- R4 / R5 -------------------------------------------------------------------------------------------------------------
+
+def flags_and_timestamps(ctx, report):
+    import itertools
+    from ..miniexec import Evaluator, Native, Obj, Raised, Unsupported
+    model = ctx.model
+    pb, cb = model.cls('ParserBinary'), model.cls('ComposerBinary')
+    need = [(pb, 'parse_numeric_flags'), (cb, 'compose_numeric_flags'), (pb, 'parse_timestamp'), (cb, 'compose_timestamp')]
+    for c, n in need:
+        if n not in c.methods:
+            report.error('C11.R4: %s.%s vanished' % (c.name, n))
+            return
+        report.touch(c.methods[n])
+    pfl, cfl, pts, cts = (c.methods[n] for c, n in need)
+
+    class Flags(Native):
+        """an IntEnum-like class: iterable over its members, callable on a member value"""
+
+        def __init__(self, members):
+            self.members = list(members)
+
+        def __iter__(self):
+            return iter(self.members)
+
+        def __call__(self, v):
+            if v not in self.members:
+                raise ValueError(v)
+            return v
+
+    class State(Native):
+        def __init__(self, wire=None):
+            self._parsed_length, self._parsed_values, self.wire, self.out = 0, {}, wire, []
+
+        def _parse_numeric_array(self, name, item_num, item_size, cls_):
+            return [self.wire], item_size
+
+        def _compose_numeric_array(self, values, item_size):
+            self.out.append((list(values), item_size))
+    members = [0x1, 0x2, 0x8, 0x100, 0x8000, 0x10000, 0x20000, 0x800000]
+
+    def run_parse(f, me, env):
+        Evaluator(dict({'self': me}, **env), None, lambda name: int if name == 'int' else (_ for _ in ()).throw(Unsupported('free name ' + name))).function(f.node)
+    try:
+        for size, shift in ((2, 0), (2, 16), (4, 0), (1, 0)):
+            window = [m for m in members if (m >> shift) and (m >> shift) < (1 << (8 * size))]
+            for k in range(0, min(len(window), 3) + 1):
+                for subset in itertools.combinations(window, k):
+                    report.count('C11.R4')
+                    me = State()
+                    Evaluator({'self': me, 'values': list(subset), 'item_size': size, 'shift_right': shift}, None, None).function(cfl.node)
+                    want = 0
+                    for m in subset:
+                        want |= m >> shift
+                    if me.out != [([want], size)]:
+                        report.add('C11.R4', cfl.construct + '@encode[shift=%d]' % shift, 'the flag set %s is composed as %s, expected the OR of the members >> %d = %#x in %d byte(s)' % (
+                            [hex(m) for m in subset], me.out, shift, want, size))
+                        raise StopIteration
+                    junk = 0x4 >> 0 if shift == 0 and size > 1 else 0      # a bit no member owns
+                    rd = State(want | junk)
+                    run_parse(pfl, rd, {'name': 'f', 'size': size, 'flags_class': Flags(members), 'shift_left': shift})
+                    got = rd._parsed_values.get('f')
+                    if got != set(subset) or rd._parsed_length != size:
+                        report.add('C11.R4', pfl.construct + '@decode[shift=%d]' % shift, 'wire value %#x (%d bytes, shift %d) is decoded as %s with the cursor at %s; expected the members %s' % (
+                            want | junk, size, shift, sorted(got) if isinstance(got, set) else got, rd._parsed_length, sorted(subset)))
+                        raise StopIteration
+    except StopIteration:
+        pass
+    except (Unsupported, Raised) as e:
+        report.add('C11.R4', pfl.construct + '@tabulation', 'the flag primitives left the subset the tabulation understands: %s' % e)
+    # ---- timestamps
+    UTC = Obj(name='UTC')
+
+    class Instant(Native):
+        def __init__(self, seconds, millis=0):
+            self.seconds, self.millis = seconds, millis
+            self.microsecond = millis * 1000
+            self.tzinfo = UTC
+
+        def utctimetuple(self):
+            return ('utc-tuple', self.seconds)
+
+        def __add__(self, other):
+            return Instant(self.seconds, self.millis + other.millis)
+
+    def hook(n, ev):
+        d = ast.unparse(n.func)
+        if d == 'calendar.timegm':
+            t = ev.ev(n.args[0])
+            if not (isinstance(t, tuple) and t[0] == 'utc-tuple'):
+                raise Unsupported('timegm of something that is not the UTC tuple')
+            return t[1]
+        if d in ('datetime.datetime.fromtimestamp', 'datetime.datetime.utcfromtimestamp'):
+            return Instant(ev.ev(n.args[0]))
+        if d == 'datetime.timedelta':
+            kw = {k.arg: ev.ev(k.value) for k in n.keywords}
+            return Obj(millis=kw.get('milliseconds', 0) + 1000 * kw.get('seconds', 0))
+        return NotImplemented
+
+    def names(name):
+        if name == 'int':
+            return int
+        if name == 'dateutil.tz.UTC':
+            return UTC
+        raise Unsupported('free name ' + name)
+    try:
+        for size, ms in ((4, False), (8, False), (8, True)):
+            sentinel = (1 << (8 * size)) - 1
+            for seconds, millis in ((0, 0), (1, 0), (86399, 999), (1710000000, 123), (0x7fffffff, 1), (0xfffffffe, 999)):
+                report.count('C11.R5')
+                inst = Instant(seconds, millis if ms else 0)
+                me = State()
+                Evaluator({'self': me, 'value': inst, 'milliseconds': ms, 'item_size': size}, hook, names).function(cts.node)
+                want = seconds * 1000 + millis if ms else seconds
+                if me.out != [([want], size)]:
+                    report.add('C11.R5', cts.construct + '@value[%s]' % ('ms' if ms else 's'), 'the instant %d s + %d ms is composed as %s in a %d byte field, expected %d' % (seconds, millis if ms else 0, me.out, size, want))
+                    break
+                rd = State(want)
+                Evaluator({'self': rd, 'name': 't', 'milliseconds': ms, 'item_size': size}, hook, names).function(pts.node)
+                got = rd._parsed_values.get('t')
+                if not isinstance(got, Instant) or (got.seconds, got.millis) != (seconds, millis if ms else 0) or rd._parsed_length != size:
+                    report.add('C11.R5', pts.construct + '@value[%s]' % ('ms' if ms else 's'), 'the %d byte wire value %d is parsed as %s, expected %d s + %d ms' % (
+                        size, want, (getattr(got, 'seconds', got), getattr(got, 'millis', None)), seconds, millis if ms else 0))
+                    break
+            report.count('C11.R5')
+            me = State()
+            Evaluator({'self': me, 'value': None, 'milliseconds': ms, 'item_size': size}, hook, names).function(cts.node)
+            if me.out != [([sentinel], size)]:
+                report.add('C11.R5', cts.construct + '@sentinel', 'None ("forever") is composed as %s in a %d byte field, expected the all-ones value %#x' % (me.out, size, sentinel))
+            rd = State(sentinel)
+            Evaluator({'self': rd, 'name': 't', 'milliseconds': ms, 'item_size': size}, hook, names).function(pts.node)
+            if rd._parsed_values.get('t', 'missing') is not None:
+                report.add('C11.R5', pts.construct + '@sentinel', 'the all-ones value of a %d byte field is parsed as %r, expected None' % (size, rd._parsed_values.get('t')))
+    except (Unsupported, Raised) as e:
+        report.add('C11.R5', cts.construct + '@tabulation', 'the timestamp primitives left the subset the tabulation understands: %s' % e)
